@@ -186,7 +186,7 @@ def spec_table():
         contents=lambda b: b.get())
     specs['ReplList'] = dict(
         make=lambda: (B.ReplList(), RefList()),
-        ops=[('append', (v,), {}) for v in (0, 1)] +
+        ops=[('append', (v,), {}) for v in (0, 1, None)] +
             [('pop', (), {}), ('pop', (0,), {}), ('pop', (1,), {}), ('pop', (-1,), {}),
              ('remove', (0,), {}), ('remove', (1,), {}),
              ('insert', (0, 2), {}), ('insert', (1, 2), {}),
@@ -201,7 +201,7 @@ def spec_table():
         contents=lambda b: list(b.rawData()))
     specs['ReplDict'] = dict(
         make=lambda: (B.ReplDict(), RefDict()),
-        ops=[('set', (k, v), {}) for k in K for v in (0, 1)] +
+        ops=[('set', (k, v), {}) for k in K for v in (0, 1)] + [('set', ('a', None), {})] +
             [('__setitem__', ('a', 2), {})] +
             [('setdefault', (k, 2), {}) for k in K] +
             [('pop', (k,), {}) for k in K] + [('pop', ('a', 7), {}), ('pop', ('b',), {'default': 8})] +
